@@ -3,6 +3,12 @@ BASE_NOTE = ("Trusted: rustc nightly 1.97 front end (type check, MIR constructio
              "clauses only; the behavioural statement over all inputs is not proved. Host configuration only (no wasm32 cfg arms).")
 
 CLAIMS = {
+ "C02": ("effects inventory over the resolved call graph (impure callees pinned to function and match arm) + write-once typestate of heap cells (private field, push-only mutators, guarded get_mut writes by MIR dominance) + hash-order sink lint + identity-comparison lint",
+         "Exhaustive static decision of: the impure primitives reachable from the evaluator are exactly time_now's clock, print's stderr, the profiling timestamps/log and a generator seeded from its argument, each in its own arm (R1); "
+         "heap cells are write-once - the cell vector is private and only pushed, reify_mut is unused, and every write through Heap::get_mut touches only LambdaDef.name under name.is_none() (R2); "
+         "every iteration over a std HashMap/HashSet reachable from evaluation/serialisation/formatting/CLI output ends in an order-insensitive sink or is a reviewed exception (R3); "
+         "no reachable code compares Values or heap pointers by derived (allocation-order) PartialEq/PartialOrd except equality with the constant null (R4). IEEE determinism is assumed.",
+         BASE_NOTE, "DESIGN.md §4 C02"),
  "C03": ("who-may-call over the resolved workspace call graph + MIR dominance / no-path / may-bind-between queries in evaluate_ast + provenance of environment arguments + name-table agreement (evaluator, assignment guard, grammar)",
          "Exhaustive static decision of: Environment::insert is called only from the evaluator's assignment handling and from driver set-up into a fresh root environment before any evaluation, and the bindings map has no other writer (R1); "
          "the top-level insert is dominated by not-a-built-in, not-yet-bound on the same environment and key with no call that may bind in between, and the Ok edge of the right-hand side, with the Err edge unable to reach it (R2/R2b); "
